@@ -21,6 +21,7 @@ import (
 	"net"
 	"os"
 	"path/filepath"
+	"runtime"
 	"sort"
 	"strings"
 	"sync"
@@ -107,6 +108,16 @@ type caseJ struct {
 	ChiWorkers int                    `json:"chi_workers,omitempty"`
 	ChiVia     string                 `json:"chi_via,omitempty"`
 	Support    map[string]interface{} `json:"support,omitempty"`
+	// conc
+	Panics    int      `json:"panics,omitempty"`
+	Dups      int      `json:"dups,omitempty"`
+	ConcVia   string   `json:"conc_via,omitempty"` // wrs | handler | gen
+	ConcG     int      `json:"conc_g,omitempty"`   // goroutines
+	ConcN     int      `json:"conc_n,omitempty"`   // selections / draws per goroutine
+	ConcW     []uint32 `json:"conc_w,omitempty"`   // wrs: weights of the candidates
+	OutCounts []int    `json:"out_counts,omitempty"`
+	Procs     int      `json:"gomaxprocs,omitempty"`
+	Restored  bool     `json:"restored_source,omitempty"`
 }
 
 // ---------------------------------------------------------------- scripted source
@@ -216,6 +227,7 @@ func runUnit(rng *hlib.Rng, max int, in []candJ, class string) caseJ {
 		}
 	}
 	src := &scriptSrc{q: script, fb: rng}
+	sourceTouched = true
 	db.SetRandSourceForVerif(src)
 	w := db.Wrs{MaxAnswers: max}
 	snap := func(items []db.WrsItem) [][2]int {
@@ -896,6 +908,7 @@ func runChi(ws []uint32, n int, seed uint64, workers int, via string, d *dataset
 	// the package's own kind of generator (locked source), seeded for reproducibility
 	lr := db.NewRand()
 	lr.Seed(int64(seed))
+	sourceTouched = true
 	db.SetRandSourceForVerif(lr)
 	obs := make([]int, len(ws))
 	bad := 0
@@ -977,6 +990,245 @@ func emitChi(a *hlib.Args, e *hlib.Emitter, d *dataset) {
 	e.Emit(runChi(nil, 4000*scale, a.Seed+3, 1, "handler", d))
 }
 
+// ---------------------------------------------------------------- concurrent use of the shared generator
+
+// sourceTouched records whether db.SetRandSourceForVerif was called in this
+// process.  The concurrent class wants the package's own generator: at process
+// start localRand is the original db.NewRand(); once a scripted source has been
+// installed (replay of mixed cases) the class installs a fresh db.NewRand(),
+// which is the same lockedSource code behind one more rand.Rand.
+var sourceTouched bool
+
+func ensureRealSource() bool {
+	if sourceTouched {
+		db.SetRandSourceForVerif(db.NewRand())
+		return true
+	}
+	return false
+}
+
+type outcome struct {
+	ids   []int
+	count int
+}
+
+func outKey(ids []int) string {
+	c := append([]int{}, ids...)
+	sort.Ints(c)
+	return fmt.Sprint(c)
+}
+
+// runStress runs sel concurrently (g goroutines x n selections) and collects the
+// distinct outcomes; a panic inside sel is one outcome with the id 999990.
+func runStress(g, n int, sel func(worker, i int) []int) ([]outcome, int) {
+	var mu sync.Mutex
+	all := map[string]*outcome{}
+	panics := 0
+	var wg sync.WaitGroup
+	start := make(chan struct{})
+	for w := 0; w < g; w++ {
+		wg.Add(1)
+		go func(w int) {
+			defer wg.Done()
+			loc := map[string]*outcome{}
+			lp := 0
+			<-start
+			for i := 0; i < n; i++ {
+				var ids []int
+				func() {
+					defer func() {
+						if e := recover(); e != nil {
+							lp++
+							ids = []int{999990}
+						}
+					}()
+					ids = sel(w, i)
+				}()
+				k := outKey(ids)
+				if o, ok := loc[k]; ok {
+					o.count++
+				} else {
+					loc[k] = &outcome{ids: append([]int{}, ids...), count: 1}
+				}
+			}
+			mu.Lock()
+			for k, o := range loc {
+				if t, ok := all[k]; ok {
+					t.count += o.count
+				} else {
+					all[k] = o
+				}
+			}
+			panics += lp
+			mu.Unlock()
+		}(w)
+	}
+	close(start)
+	wg.Wait()
+	keys := make([]string, 0, len(all))
+	for k := range all {
+		keys = append(keys, k)
+	}
+	sort.Strings(keys)
+	res := make([]outcome, 0, len(keys))
+	for _, k := range keys {
+		res = append(res, *all[k])
+	}
+	return res, panics
+}
+
+func concBase(via string, g, n, max int) caseJ {
+	return caseJ{Kind: "conc", Class: "conc:" + via, Max: max, ConcVia: via, ConcG: g, ConcN: n, KeysAgree: true,
+		Out4: []int{}, Out6: []int{}, Procs: runtime.GOMAXPROCS(0)}
+}
+
+// direct Wrs.Add / ARecord on the shared generator
+func runConcWrs(ws []uint32, max, g, n int) caseJ {
+	c := concBase("wrs", g, n, max)
+	c.Restored = ensureRealSource()
+	c.ConcW = ws
+	c.QType = 1
+	c.Mode = "addr"
+	rows := make([][]byte, len(ws))
+	rrs := make([]db.ResourceRecord, len(ws))
+	cands := [][3]uint64{}
+	for i, wt := range ws {
+		rows[i] = mkRow(1, wt, i)
+		rrs[i], _ = db.ExtractRRFromRow(rows[i], false)
+		cands = append(cands, [3]uint64{1, uint64(wt), uint64(i)})
+	}
+	outs, panics := runStress(g, n, func(_, _ int) []int {
+		w := db.Wrs{MaxAnswers: max}
+		for i := range rows {
+			if err := w.Add(rrs[i], rows[i]); err != nil {
+				return []int{999991}
+			}
+		}
+		res, err := w.ARecord("x.example.", dns.ClassINET)
+		if err != nil {
+			return []int{999992}
+		}
+		ids := make([]int, 0, len(res))
+		for _, r := range res {
+			ids = append(ids, idOfAddr(r.(*dns.A).A.To4()))
+		}
+		return ids
+	})
+	c.Panics = panics
+	for _, o := range outs {
+		c.Groups = append(c.Groups, groupJ{Name: "outcome", Max: max, Want4: true, Want6: false, Cands: cands, Got4: o.ids, Got6: []int{}})
+		c.OutCounts = append(c.OutCounts, o.count)
+	}
+	return c
+}
+
+// queries through FBDNSDB (FindAnswer) on the shared generator, backends rotating per goroutine
+func runConcHandler(d *dataset, qname string, qtype int, client string, max, g, n int, dseed uint64) caseJ {
+	c := concBase("handler", g, n, max)
+	c.Restored = ensureRealSource()
+	c.QName, c.QType, c.Client, c.DSeed, c.Mode = qname, qtype, client, dseed, "addr"
+	loc := clientLoc(client)
+	cands := d.visible(qname, loc)
+	outs, panics := runStress(g, n, func(w, _ int) []int {
+		q := d.query(drivers[w%len(drivers)], qname, qtype, "addr", client, max, dseed)
+		if q.Rcode != 0 || len(q.Groups) != 1 {
+			return []int{999993}
+		}
+		ids := append([]int{}, q.Groups[0].Got4...)
+		for _, x := range q.Groups[0].Got6 {
+			ids = append(ids, x)
+		}
+		return ids
+	})
+	c.Panics = panics
+	fam := map[int]int{}
+	for _, r := range d.names[qname] {
+		fam[r.id] = r.fam
+	}
+	for _, o := range outs {
+		gr := groupJ{Name: qname, Max: max, Want4: qtype == 1, Want6: qtype == 28, Cands: cands, Got4: []int{}, Got6: []int{}}
+		for _, id := range o.ids {
+			if fam[id] == 28 {
+				gr.Got6 = append(gr.Got6, id)
+			} else {
+				gr.Got4 = append(gr.Got4, id)
+			}
+		}
+		c.Groups = append(c.Groups, gr)
+		c.OutCounts = append(c.OutCounts, o.count)
+	}
+	return c
+}
+
+// g goroutines drawing n 63-bit values each from one db.NewRand() (the
+// package's lockedSource): repeated values and panics
+func runConcGen(g, n int) caseJ {
+	c := concBase("gen", g, n, 1)
+	lr := db.NewRand()
+	out := make([][]int64, g)
+	pan := make([]int, g)
+	var wg sync.WaitGroup
+	start := make(chan struct{})
+	for w := 0; w < g; w++ {
+		wg.Add(1)
+		go func(w int) {
+			defer wg.Done()
+			res := make([]int64, 0, n)
+			<-start
+			for i := 0; i < n; i++ {
+				func() {
+					defer func() {
+						if e := recover(); e != nil {
+							pan[w]++
+						}
+					}()
+					res = append(res, lr.Int63())
+				}()
+			}
+			out[w] = res
+		}(w)
+	}
+	close(start)
+	wg.Wait()
+	all := make([]int64, 0, g*n)
+	for w := range out {
+		all = append(all, out[w]...)
+		c.Panics += pan[w]
+	}
+	sort.Slice(all, func(i, j int) bool { return all[i] < all[j] })
+	for i := 1; i < len(all); i++ {
+		if all[i] == all[i-1] {
+			c.Dups++
+		}
+	}
+	c.OutCounts = []int{len(all)}
+	return c
+}
+
+func emitConc(a *hlib.Args, e *hlib.Emitter, d *dataset) {
+	t := time.Now()
+	lap := func(what string) {
+		fmt.Fprintf(os.Stderr, "c11 conc: %s %.1fs\n", what, time.Since(t).Seconds())
+		t = time.Now()
+	}
+	g, nsel, nq, ndraw := 16, 800, 60, 50000
+	if a.Tier == "thorough" {
+		nsel, nq, ndraw = 40000, 4000, 200000
+	}
+	e.Emit(runConcGen(g, ndraw))
+	lap("gen")
+	e.Emit(runConcWrs([]uint32{1, 2, 3, 4}, 1, g, nsel))
+	e.Emit(runConcWrs([]uint32{5, 1, 0, 1, 1, 100}, 3, g, nsel))
+	e.Emit(runConcWrs([]uint32{0, 0, 7}, 2, g, nsel))
+	e.Emit(runConcWrs([]uint32{1, 1, 1, 1, 1, 1, 1, 1}, 8, g, nsel))
+	lap("wrs")
+	e.Emit(runConcHandler(d, "wrr.example.com.", 1, "9.9.9.9", 2, g, nq, a.Seed))
+	e.Emit(runConcHandler(d, "mixz.example.com.", 1, "10.2.0.1", 8, g, nq, a.Seed))
+	e.Emit(runConcHandler(d, "big.example.com.", 28, "fd00::99", 3, g, nq, a.Seed))
+	e.Emit(runConcHandler(d, "loc.example.com.", 1, "10.1.0.1", 4, g, nq, a.Seed))
+	lap("handler")
+}
+
 // ---------------------------------------------------------------- main
 
 func run(a *hlib.Args, e *hlib.Emitter) error {
@@ -1016,9 +1268,25 @@ func run(a *hlib.Args, e *hlib.Emitter) error {
 				if err != nil {
 					return err
 				}
+				sourceTouched = true
 				db.SetRandSourceForVerif(rand.NewSource(int64(a.Seed)).(rand.Source64))
 				max := c.Max
 				e.Emit(ds.query(c.Driver, c.QName, c.QType, c.Mode, c.Client, max, c.DSeed))
+			case "conc":
+				// a race cannot be replayed deterministically: the stress is re-run
+				// with the same parameters (the replay file keeps the observed counts)
+				switch c.ConcVia {
+				case "gen":
+					e.Emit(runConcGen(c.ConcG, c.ConcN))
+				case "wrs":
+					e.Emit(runConcWrs(c.ConcW, c.Max, c.ConcG, c.ConcN))
+				case "handler":
+					ds, err := getData(c.DSeed)
+					if err != nil {
+						return err
+					}
+					e.Emit(runConcHandler(ds, c.QName, c.QType, c.Client, c.Max, c.ConcG, c.ConcN, c.DSeed))
+				}
 			case "chi":
 				ds, err := getData(a.Seed)
 				if err != nil {
@@ -1029,20 +1297,24 @@ func run(a *hlib.Args, e *hlib.Emitter) error {
 		}
 		return nil
 	}
-	t0 := time.Now()
-	emitUnits(a, e, r)
-	t1 := time.Now()
+	tb := time.Now()
 	ds, err := getData(a.Seed)
 	if err != nil {
 		return err
 	}
-	t2 := time.Now()
+	tc := time.Now()
+	// first, while localRand is still the package's original generator
+	emitConc(a, e, ds)
+	t0 := time.Now()
+	emitUnits(a, e, r)
+	t1 := time.Now()
+	sourceTouched = true
 	db.SetRandSourceForVerif(rand.NewSource(int64(a.Seed)).(rand.Source64))
 	emitE2E(a, e, ds)
 	t3 := time.Now()
 	emitChi(a, e, ds)
-	fmt.Fprintf(os.Stderr, "c11 phases: unit %.1fs, db build %.1fs, e2e %.1fs, chi %.1fs\n",
-		t1.Sub(t0).Seconds(), t2.Sub(t1).Seconds(), t3.Sub(t2).Seconds(), time.Since(t3).Seconds())
+	fmt.Fprintf(os.Stderr, "c11 phases: db build %.1fs, conc %.1fs, unit %.1fs, e2e %.1fs, chi %.1fs\n",
+		tc.Sub(tb).Seconds(), t0.Sub(tc).Seconds(), t1.Sub(t0).Seconds(), t3.Sub(t1).Seconds(), time.Since(t3).Seconds())
 	return nil
 }
 
